@@ -4,6 +4,7 @@ usage: tools/mkprompt_refactor.py C07 r   -> worktree /tmp/refac-C07-r"""
 import json, sys
 VERIF = __file__.rsplit('/tools/', 1)[0]
 pid, tag = sys.argv[1], sys.argv[2]
+hint = sys.argv[3] if len(sys.argv) > 3 else ''
 props = {json.loads(l)['id']: json.loads(l) for l in open(VERIF + '/properties.jsonl') if l.strip()}
 p = props[pid]
 wt = '/tmp/refac-%s-%s' % (pid, tag)
@@ -16,7 +17,7 @@ The behavioural property whose implementation you should refactor (it must KEEP 
   {pid} - {p['title']}
   Statement: {p['statement']}
 
-Your task: find the non-test code under {wt}/src that implements this behaviour and refactor part of it WITHOUT changing any observable behaviour for any input, state or interleaving. Aim for 15-60 changed lines, touching the core of the implementation (the conditions, the state updates, the messages sent), not just comments or whitespace. Use ordinary refactoring moves, e.g.: rename local variables; extract a small private helper function or inline one; replace nested if/else by early `continue`/`return` or by `match`; replace an explicit loop by iterator adaptors or vice versa; hoist a repeated expression into a `let`; reorder statements that are independent of each other; replace `if x.is_some() {{ x.unwrap() }}` by `if let`; merge or split conditions using boolean algebra (De Morgan, distributing &&/||); change `a.contains_key(k)` + `a.get(k).unwrap()` into `if let Some(v) = a.get(k)`; use `map_or`/`is_some_and` style combinators. Do NOT fix bugs, do NOT change messages, numerics, ordering of messages to any one receiver, locking structure (keep the same lock held over the same check-and-update), or error behaviour. If you are not sure a step preserves behaviour in a corner case, do not take it.
+Your task: find the non-test code under {wt}/src that implements this behaviour and refactor part of it WITHOUT changing any observable behaviour for any input, state or interleaving. Aim for 15-60 changed lines, touching the core of the implementation (the conditions, the state updates, the messages sent), not just comments or whitespace. Use ordinary refactoring moves, e.g.: rename local variables; extract a small private helper function or inline one; replace nested if/else by early `continue`/`return` or by `match`; replace an explicit loop by iterator adaptors or vice versa; hoist a repeated expression into a `let`; reorder statements that are independent of each other; replace `if x.is_some() {{ x.unwrap() }}` by `if let`; merge or split conditions using boolean algebra (De Morgan, distributing &&/||); change `a.contains_key(k)` + `a.get(k).unwrap()` into `if let Some(v) = a.get(k)`; use `map_or`/`is_some_and` style combinators. Do NOT fix bugs, do NOT change messages, numerics, ordering of messages to any one receiver, locking structure (keep the same lock held over the same check-and-update), or error behaviour. If you are not sure a step preserves behaviour in a corner case, do not take it. {hint}
 
 It must compile (`cargo build --offline`) and the existing test suite must pass. The socket tests bind fixed TCP ports (7888 upwards) and other people run the same tests on this machine, so ALWAYS run tests inside a private network namespace and single-threaded:
       cd {wt} && CARGO_TARGET_DIR={wt}/target unshare -n sh -c 'ip link set lo up; cargo test --offline -- --test-threads 1'
